@@ -49,14 +49,15 @@ def evaluate(spec):
         return {"sig": "reference container: " + f0, "detail": (o0.run.exc or "")[-300:], "nontrivial": False}
     o1 = oracle.run_e2e(b, wd, pkts=pkts, container=cont, name="var")
     f1 = oracle.base_failure(o1)
-    dims = (cont["fmt"] != "pcapng") + (cont.get("endian", "<") != "<") + (cont.get("tsresol", 6) != 6) + bool(cont.get("tsoffset")) + bool(cont.get("extra") or cont.get("extra_pre")) + \
+    dims = (cont["fmt"] != "pcapng") + (cont.get("endian", "<") != "<") + (cont.get("tsresol", 6) != 6) + bool(cont.get("tsoffset")) + bool(cont.get("extra") or cont.get("extra_pre")) + (cont.get("ifaces", 1) > 1) + \
         bool(cont.get("nano"))
     r = cont.get("tsresol", 6)
     labels = ["fmt:" + cont["fmt"] + ("-ns" if cont.get("nano") else ""), "endian:" + ("be" if cont.get("endian", "<") == ">" else "le"),
               "tsresol:" + ("2^-%d" % (r & 0x7F) if r & 0x80 else "10^-%d" % r), "tsoffset" if cont.get("tsoffset") else "no-offset",
               "extra-blocks:%d" % len(cont.get("extra") or []), "exact-us" if exact_us else "sub-us",
               "big-block" if any(x[2] > 60000 for x in (cont.get("extra") or [])) else "small-blocks", "snaplen:%d" % cont.get("snaplen", 0),
-              "opt-order:" + ("offset,resol" if cont.get("offset_first") else "resol,offset"), "blocks-before-idb:%d" % len(cont.get("extra_pre") or [])]
+              "opt-order:" + ("offset,resol" if cont.get("offset_first") else "resol,offset"), "blocks-before-idb:%d" % len(cont.get("extra_pre") or []),
+              "interfaces:%d%s" % (cont.get("ifaces", 1), "-late" if cont.get("late_idb") and cont.get("ifaces", 1) > 1 else "")]
     nontrivial = dims >= 2 and bool(o0.pkts)
     if f1:
         return {"sig": f"variant container ({labels[0]}, {labels[2]}): " + f1, "detail": (o1.run.exc or "")[-300:], "nontrivial": nontrivial, "labels": labels}
@@ -148,6 +149,9 @@ def container(draw):
     c["extra"] = [[draw(st.integers(0, 50)), draw(st.sampled_from([4, 5, 0x00000BAD, 0x40000BAD, 0x7777, 0x0000000B])),
                    4 * draw(st.one_of(st.integers(0, 12), st.integers(0, 12), st.sampled_from([400, 16500, 17000, 45000, 90000])))]
                   for _ in range(n)]
+    # a capture on several interfaces (same time parameters): packets are spread over them; later interfaces may be described late
+    c["ifaces"] = draw(st.sampled_from([1, 1, 1, 2, 3]))
+    c["late_idb"] = draw(st.booleans())
     # ... and some of them before the interface description block (they do not refer to an interface)
     c["extra_pre"] = [[draw(st.sampled_from([4, 0x00000BAD, 0x40000BAD, 0x7777])), 4 * draw(st.one_of(st.integers(0, 12), st.sampled_from([400, 17000])))]
                       for _ in range(draw(st.sampled_from([0, 0, 0, 1, 2])))]
@@ -183,6 +187,6 @@ RULE = ("stage same-times-two-containers: the same sub-microsecond packet times 
         "-l; packet times are exact rationals, multiples of the variant's unit; oracle: same exported packets, same timestamps (exactly when the "
         "times are integer microseconds - then also a byte-identical output file - else within 1 us).  Non-trivial: variant differs from the "
         "reference in >= 2 container dimensions and the export is non-empty")
-ASSUMPTIONS = ["present-day capture times (about 1.7e9 s); one interface description block", "nanosecond-magic legacy pcap is counted as a legacy pcap variant"]
+ASSUMPTIONS = ["present-day capture times (about 1.7e9 s); 1-3 interfaces, all with the same if_tsresol / if_tsoffset (the property speaks of one resolution per capture)", "nanosecond-magic legacy pcap is counted as a legacy pcap variant"]
 
 CHECK = Check(PID, "exploration", RULE, ASSUMPTIONS, stages)
